@@ -27,6 +27,8 @@ import Gama.Lemmas.MatVecKernels2
 import Gama.Lemmas.MatVecValues2
 import Gama.Lemmas.MatVecKernels3
 import Gama.Lemmas.MatVecValues3
+import Gama.Lemmas.MatVecKernels4
+import Gama.Lemmas.MatVecValues4
 namespace Gama.Props.C15
 open Gama Gama.MatVec Gama.Gen Matrix
 
@@ -253,5 +255,59 @@ example : MV.matMulSym (⟨2, 2, #[1, 2, 3, 4]⟩ : Mat Int) ⟨2, #[1, 2, 3]⟩
     ∧ MV.matMulSym (⟨3, 0, #[]⟩ : Mat Int) ⟨0, #[]⟩ = .ok ⟨3, 0, #[]⟩
     ∧ MV.matMulSym (⟨1, 3, #[1, 1, 1]⟩ : Mat Int) ⟨3, #[1, 2, 3, 4, 5, 6]⟩ = .ok ⟨1, 3, #[7, 10, 15]⟩
     ∧ MV.matMulSym (⟨2, 2, #[1, 2, 3, 4]⟩ : Mat Int) ⟨3, #[1, 2, 3, 4, 5, 6]⟩ = .error .badRank := by decide
+
+/-! ## Round 13: `SymMat·SymMat` as coded (known finding C15-symmat-product), on the REGENERATED loop -/
+
+/-- **source tie of `operator*(const SymMat&, const SymMat&)`**: the regenerated loop (two base-1 pointers, walkers
+    `l++; if (k > i) l += k-2`, triangular store `j ≤ i`, early return for dimension 0) EQUALS the hand model `symMul` -/
+theorem C15_symmat_symmat_source_tie {K : Type} [Add K] [Mul K] [Zero K] (A B : SMat K) :
+    MV.symMul A B = symMul A B := gen_symMul A B
+
+/-- **what the code computes**: on conforming well-formed operands the regenerated loop returns a `SymMat` `C` whose
+    cell `(i,j)`, `j ≤ i`, is `(AB)(i,j)` — the lower triangle of the true product of the two symmetric matrices;
+    hence `C` (read as a symmetric matrix) is `AB` EXACTLY WHEN `AB` is symmetric, i.e. `A` and `B` commute -/
+theorem C15_symmat_symmat_as_coded {K : Type} [Semiring K] (A B : SMat K) (hA : A.WF) (hB : B.WF)
+    (hc : A.dim = B.dim) (d : K) :
+    ∃ C, MV.symMul A B = .ok C ∧ C.dim = A.dim ∧ C.WF
+      ∧ (∀ i j : Fin A.dim, j ≤ i → C.toMatrix d A.dim i j = (A.toMatrix d A.dim * B.toMatrix d A.dim) i j)
+      ∧ (C.toMatrix d A.dim = A.toMatrix d A.dim * B.toMatrix d A.dim
+          ↔ (A.toMatrix d A.dim * B.toMatrix d A.dim)ᵀ = A.toMatrix d A.dim * B.toMatrix d A.dim) := by
+  obtain ⟨C, h1, h2, h3, h4⟩ := symMul_cells A B hA hB hc d
+  have low : ∀ i j : Fin A.dim, j ≤ i → C.toMatrix d A.dim i j = (A.toMatrix d A.dim * B.toMatrix d A.dim) i j := by
+    intro i j hji
+    simp only [SMat.toMatrix, Matrix.mul_apply]
+    rw [h4 i.val j.val hji i.isLt, ← Fin.sum_univ_eq_sum_range (fun k => A.at d i.val k * B.at d j.val k)]
+    exact Finset.sum_congr rfl (fun k _ => by rw [SMat.at_symm B d j.val k.val])
+  refine ⟨C, by rw [gen_symMul]; exact h1, h2, h3, low, ?_⟩
+  constructor
+  · intro h; rw [← h]; exact SMat.toMatrix_symm C d A.dim
+  · intro hs
+    funext i j
+    by_cases hji : j ≤ i
+    · exact low i j hji
+    · have hij : i ≤ j := by
+        rcases Fin.le_total i j with h | h
+        · exact h
+        · exact absurd h hji
+      have e1 : C.toMatrix d A.dim i j = C.toMatrix d A.dim j i := by
+        simp only [SMat.toMatrix]; exact SMat.at_symm C d i.val j.val
+      rw [e1, low j i hij]
+      have := congrFun (congrFun hs i) j
+      simpa [Matrix.transpose_apply] using this
+
+/-- **known finding C15-symmat-product as a theorem about the source text**: on the REGENERATED loop,
+    `Sym[[1,2],[2,3]] · Sym[[1,0],[0,2]]` returns `Sym[[1,2],[2,6]]`, whose square form `[[1,2],[2,6]]` is not the
+    product `[[1,4],[2,6]]` of the operands' square forms (`(AB)(1,2) = 4` is lost: `AB` is not symmetric) -/
+theorem C15_symmat_product_violates_source :
+    ∃ A B C : SMat Int, MV.symMul A B = .ok C ∧ A.WF ∧ B.WF ∧ A.dim = B.dim ∧
+      (symSquare C).toOption.map (·.data) ≠
+        ((do let a ← symSquare A; let b ← symSquare B; MV.matMul a b : Except Err (Mat Int))).toOption.map (·.data) :=
+  ⟨⟨2, #[1, 2, 3]⟩, ⟨2, #[1, 0, 2]⟩, ⟨2, #[1, 2, 6]⟩, by decide, by simp [SMat.WF], by simp [SMat.WF], rfl, by decide⟩
+
+/-- non-vacuity of the `↔`: commuting operands (`B = 2·I`): the regenerated loop returns the true product; dimension 0 -/
+example : MV.symMul (⟨2, #[1, 2, 3]⟩ : SMat Int) ⟨2, #[2, 0, 2]⟩ = .ok ⟨2, #[2, 4, 6]⟩
+    ∧ MV.symMul (⟨0, #[]⟩ : SMat Int) ⟨0, #[]⟩ = .ok ⟨0, #[]⟩
+    ∧ MV.symMul (⟨3, #[1, 2, 3, 4, 5, 6]⟩ : SMat Int) ⟨3, #[1, 0, 1, 0, 0, 1]⟩ = .ok ⟨3, #[1, 2, 3, 4, 5, 6]⟩
+    ∧ MV.symMul (⟨2, #[1, 2, 3]⟩ : SMat Int) ⟨3, #[1, 0, 1, 0, 0, 1]⟩ = .error .badRank := by decide
 
 end Gama.Props.C15
